@@ -129,6 +129,62 @@ def line_props(ops_line, field):
     return props
 
 
+def _items(v):
+    v = (v or "").strip()
+    if not (v.startswith("[") and v.endswith("]")):
+        return None
+    v = v[1:-1]
+    return [x for x in v.split(",") if x] if v else []
+
+
+def relevant(prop, fields, a, b):
+    """Model and implementation differ in `fields` of one line (both started from the same state — the
+    driver re-synchronises). Is the difference one that `prop`'s theorems speak about, or merely the echo
+    of a difference that belongs to another property (other contents => other total, other order, fewer
+    hashes)? Only the cases that can be decided from the two lines are filtered; everything else stays."""
+    try:
+        if prop == "C05":
+            # order: the relative order of the entries both sides hold, and who is most-recently-used among them
+            oa, ob = _items(a.get("ord")), _items(b.get("ord"))
+            if oa is None or ob is None:
+                return True
+            ka = [":".join(x.split(":")[:5]) for x in oa]
+            kb = [":".join(x.split(":")[:5]) for x in ob]
+            common = set(ka) & set(kb)
+            if [x for x in ka if x in common] != [x for x in kb if x in common]:
+                return True
+            ra, rb = _items(a.get("rord")), _items(b.get("rord"))
+            if ra is not None and rb is not None and (ra != [x.split(":")[0] for x in reversed(oa)]) != (rb != [x.split(":")[0] for x in reversed(ob)]):
+                return True
+            return bool(set(fields) & {"ret"}) and a.get("ret", "").startswith(("p:", "v:", "I[")) and set(ka) == set(kb)
+        if prop == "C20":
+            # an upper bound on hashing: more hash calls than the model predicts
+            if set(fields) & {"h", "hs"}:
+                return int(a.get("h", "0")) > int(b.get("h", "0"))
+            return True
+        if prop == "C02":
+            # exact accounting: the implementation's own total against its own recorded sizes and count
+            ra, oa = _items(a.get("rs")), _items(a.get("ord"))
+            if ra is None or oa is None:
+                return True
+            if int(a.get("cur", "0")) != sum(int(x) for x in ra) or int(a.get("len", "0")) != len(oa):
+                return True
+            if [int(x.split(":")[5]) for x in oa] != [int(x) for x in ra]:
+                return True
+            # same contents but another total / other sizes
+            ob = _items(b.get("ord"))
+            return ob is not None and [x.split(":")[:5] for x in oa] == [x.split(":")[:5] for x in ob] and bool(set(fields) & {"cur", "rs", "ord"})
+        if prop == "C01":
+            if "max" in fields:
+                return True
+            if "cur" in fields:
+                return int(a.get("cur", "0")) > int(a.get("max", "0"))
+            return True
+    except (ValueError, IndexError):
+        return True
+    return True
+
+
 def line_is_shared(ops_line):
     name = op_name(ops_line)
     toks = ops_line.split(" | ")[0].split(" ")
@@ -444,12 +500,17 @@ def compare(ctx, res):
     # is one transition from a known common state), but light lines (`L`, long sequences) show only
     # len/cur/max/cap: contents and order can drift unseen until the next full line.
     span = []
+    lost_light = False
     for i in range(n):
         if ops[i].startswith("# seq"):
             forget_seq = False
             panic_seq = False
             span = []
+            lost_light = False
         is_full = ops[i].startswith("F ")
+        was_lost = lost_light
+        if is_full:
+            lost_light = False
         prior = list(span)
         span = [] if is_full else (span + [i] if ops[i].startswith("L ") else span)
         if obs[i] == pred[i]:
@@ -457,6 +518,10 @@ def compare(ctx, res):
                 forget_seq = forget_seq or (" it " in ops[i])
             if "!" in ops[i]:
                 panic_seq = True
+            continue
+        if is_full and was_lost:
+            # the first full line after light lines of which one already diverged (and was reported there):
+            # the driver re-synchronises here; what this line shows is the echo of that divergence
             continue
         a, b = parse_fields(obs[i]), parse_fields(pred[i])
         fields = [k for k in set(a) | set(b) if a.get(k) != b.get(k)]
@@ -470,7 +535,7 @@ def compare(ctx, res):
             # crate / the model's arithOf has a failing step), the other does not: the accounting arithmetic
             # (C01/C02) and the operation's own contract
             own = {"ins": "C10", "tins": "C10", "mut": "C11"}.get(op_name(ops[i]))
-            props = {"C01", "C02"} | ({own} if own else set())
+            props = {"C01"} | ({own} if own else set())
             start = seq_of(ops, i)
             newp = {q for q in props if (start, q) not in seen_seq}
             for q in newp:
@@ -498,6 +563,13 @@ def compare(ctx, res):
             props.add("C17")
         if panic_seq and structural & set(fields):
             props.add("C16")
+        props = {q for q in props if q == "*" or relevant(q, fields, a, b)}
+        # light lines cannot be re-synchronised (they show no contents): after one of them diverged, the
+        # totals of the following light lines only repeat that divergence
+        if not is_full:
+            if lost_light:
+                continue
+            lost_light = True
         start = seq_of(ops, i)
         # per sequence, the first disagreement that concerns each property (later lines of the same
         # sequence may merely follow from an earlier divergence, but the driver re-synchronises the
